@@ -135,6 +135,14 @@ Judge(e) ==
        [] e.op = "Equal" ->
            \* result is judged by TraceNode (C13); here only the frame (C11)
            Frame(e, {})
+       [] e.op = "Pair" ->
+           \* stateless: one ordered pair of the exported universe through Union, Add and Intersect
+           LET wf(name, r) == IF ~WellFormed(e.x) \/ ~WellFormed(e.y) THEN {}
+                              ELSE Tag(name \o ".", WFClause(r)) \cup (IF Normalised(r) THEN {} ELSE {name \o ".normalised"}) IN
+           Tag("union.", MergeContract(e.u, e.x, e.y, Update)) \cup wf("Union", e.u)
+           \cup Tag("add.", MergeContract(e.ad, e.x, e.y, Augment)) \cup wf("Add", e.ad)
+           \cup Tag("intersect.", IntersectContract(e.ix, e.x, e.y)) \cup wf("Intersect", e.ix)
+           \cup (IF e.same /\ e.argsame THEN {} ELSE {"frame.Query.operand"})
        [] e.op = "CopyElem" ->
            \* copies of single elements: same content, equal to the source, no storage in common; nothing else changes
            UNION {(IF c.content THEN {} ELSE {"copy." \o c.kind \o ".content"})
